@@ -3,8 +3,10 @@
 Clause decided (only this): the double-quoted escape decoding table is the YAML 1.2 table.  Each named escape of
 resolve_flow_scalar_escape_sequence maps to the code point section 5.7 of the specification gives, x/u/U select 2/4/8 hex digits,
 every other character after `\\` reaches an error, the hex accumulator is (value << 4) + as_hex(c) with as_hex the hexadecimal digit
-value (folded from its body), and the result passes through char::from_u32 with None -> Err.  Folding, trimming, '' un-doubling and
-the push-class facts (content characters are passed through, breaks never are) are not decided here.
+value (folded from its body), and the result passes through char::from_u32 with None -> Err.
+Also decided: line folding of quoted and plain scalars as path tables against section 6.5 (rules/folding.py, engine E7) and the
+push-class facts (every character copied from the cursor into scalar text is a content character; E1 pass B).  '' un-doubling, where a
+plain scalar ends and the text as a value are not decided here.
 """
 import json
 from .common import *
@@ -19,10 +21,13 @@ def new_report(tier):
     return make_report(PID, tier, "proof", [
         "tables/yaml12_escapes.json is a faithful transcription of YAML 1.2.2 section 5.7 (escaped characters)",
         "char::from_u32 returns None exactly for surrogates and values above 0x10FFFF (std)",
+        "the folding table in rules/folding.py is a faithful transcription of YAML 1.2.2 sections 6.5 and 7.3.1",
     ], "E4 switch-table extraction from the MIR of resolve_flow_scalar_escape_sequence (arm constant per escape character, hex-length arms, "
        "default arm), expression shape of the hex accumulator, constant folding of as_hex/is_hex over the alphabet, compared with the "
-       "specification's table. Decides the escape table only; line folding, blank trimming and quote un-doubling are value-level string "
-       "functions outside static reach.")
+       "specification's table; E7 guarded-path tables of the flush / line-break / blank regions of scan_flow_scalar and scan_plain_scalar "
+       "(buffer roles inferred from how they are written) evaluated on every feasible (flag, buffer-empty) combination against section 6.5; "
+       "E1 pass B character-class windows at every push of a cursor character. Quote un-doubling, plain-scalar termination and the text "
+       "as a value are outside static reach.")
 
 
 def scanner_escape_table(F):
